@@ -13,7 +13,13 @@ fn hexd(n: u8) -> u8 { if n < 10 { b'0' + n } else { b'a' + (n - 10) } }
 //@ id=C16,C14 tier=extra name=c16_print_lines timeout=5400 role=print_lines bound=1-block,2-txs-x-2-outputs:(OP_RETURN-a,P2PKH),(OP_RETURN-empty,OP_RETURN-b) mem=20 fn=OpReturn::on_block
 #[kani::proof]
 #[kani::unwind(70)]
-fn c16_print_lines() {
+fn c16_print_lines() { print_lines_body(false) }
+//@ id=C16,C14 tier=quick name=c16_print_lines_m timeout=900 role=print_lines bound=1-block,2-txs-x-2-outputs:(OP_RETURN-a,P2PKH),(OP_RETURN-empty,OP_RETURN-b),structured-format-model mem=20 fn=OpReturn::on_block
+#[kani::proof]
+#[kani::unwind(110)] // one printed line is 100 bytes
+fn c16_print_lines_m() { print_lines_body(true) }
+fn print_lines_body(structured: bool) {
+    unsafe { fmtm::STRUCTURED.v = structured; }
     let mut b = cx::mk_block(2, 1, 2, false);
     b.txs[0].value.outputs[0].script = EvaluatedScript::new(None, ScriptPattern::OpReturn(String::from("a")));
     b.txs[0].value.outputs[1].script = EvaluatedScript::new(Some(String::from("x")), ScriptPattern::Pay2PublicKeyHash);
